@@ -46,11 +46,14 @@ theorem Spec.run_len (fe : FrontEnd) (evs : List Ev) : (Spec.run fe evs).sts.len
   rw [← run_refines]; simp [abs, (inv_run fe evs).len]
 
 theorem Spec.step_clock (fe : FrontEnd) (S : Spec) (ev : Ev) :
-    (Spec.step fe S ev).clock = match ev with | .tick t => max S.clock t | _ => S.clock := by
-  unfold Spec.step; cases ev <;> rfl
+    (Spec.step fe S ev).clock = clockStep S.clock ev := by
+  unfold Spec.step clockStep; cases ev <;> rfl
+
+theorem clockStep_ge (c : Nat) (ev : Ev) : c ≤ clockStep c ev := by
+  unfold clockStep; cases ev <;> simp <;> omega
 
 theorem Spec.clock_le_step (fe : FrontEnd) (S : Spec) (ev : Ev) : S.clock ≤ (Spec.step fe S ev).clock := by
-  rw [Spec.step_clock]; cases ev <;> simp <;> omega
+  rw [Spec.step_clock]; exact clockStep_ge _ _
 
 theorem Spec.react_get (fe : FrontEnd) (S : Spec) (ev : Ev) {i : Nat} {r : Req} {s : IState}
     (hr : S.reqs[i]? = some r) (hs : S.sts[i]? = some s) :
@@ -68,7 +71,7 @@ theorem Spec.step_old (fe : FrontEnd) (S : Spec) (ev : Ev) {i : Nat} {r : Req} {
   have h1 := Spec.react_get fe S ev hr hs
   unfold Spec.step
   cases ev with
-  | express nm imp cbp life v lat =>
+  | express nm imp cbp life v lat defer nr =>
     exact ⟨getElem?_concat_old hr, getElem?_concat_old h1⟩
   | _ => exact ⟨hr, h1⟩
 
@@ -76,8 +79,8 @@ theorem Spec.step_old (fe : FrontEnd) (S : Spec) (ev : Ev) {i : Nat} {r : Req} {
 theorem Spec.step_cases (fe : FrontEnd) (S : Spec) (hlen : S.sts.length = S.reqs.length) (ev : Ev) {i : Nat}
     {r : Req} {s' : IState} (hr : (Spec.step fe S ev).reqs[i]? = some r) (hs : (Spec.step fe S ev).sts[i]? = some s') :
     (∃ s, S.reqs[i]? = some r ∧ S.sts[i]? = some s ∧ s' = specReact fe S.clock i r s ev) ∨
-    (∃ nm imp cbp life v lat, ev = .express nm imp cbp life v lat ∧ i = S.reqs.length ∧
-      r = ⟨nm, imp, cbp, S.clock + life, v, lat⟩ ∧ s' = .waiting) := by
+    (∃ nm imp cbp life v lat defer nr, ev = .express nm imp cbp life v lat defer nr ∧ i = S.reqs.length ∧
+      r = mkReq fe S.clock nm imp cbp life v lat defer ∧ s' = specFire fe S.clock r (initSt fe S.clock nr)) := by
   have old : S.reqs[i]? = some r → ∃ s, S.reqs[i]? = some r ∧ S.sts[i]? = some s ∧
       s' = specReact fe S.clock i r s ev := by
     intro h0
@@ -87,22 +90,36 @@ theorem Spec.step_cases (fe : FrontEnd) (S : Spec) (hlen : S.sts.length = S.reqs
     rw [this] at hs
     exact ⟨_, h0, h1, (Option.some.inj hs).symm⟩
   cases ev with
-  | express nm imp cbp life v lat =>
-    have hr' : (S.reqs ++ [⟨nm, imp, cbp, S.clock + life, v, lat⟩])[i]? = some r := hr
+  | express nm imp cbp life v lat defer nr =>
+    have hr' : (S.reqs ++ [mkReq fe S.clock nm imp cbp life v lat defer])[i]? = some r := hr
     rcases getElem?_concat_cases hr' with h0 | ⟨h0, h1⟩
     · exact Or.inl (old h0)
     · right
-      refine ⟨nm, imp, cbp, life, v, lat, rfl, h0, h1, ?_⟩
-      have hs' : (S.react fe (.express nm imp cbp life v lat) ++ [IState.waiting])[i]? = some s' := hs
+      refine ⟨nm, imp, cbp, life, v, lat, defer, nr, rfl, h0, h1, ?_⟩
+      have hs' : (S.react fe (.express nm imp cbp life v lat defer nr) ++
+          [specFire fe S.clock (mkReq fe S.clock nm imp cbp life v lat defer) (initSt fe S.clock nr)])[i]? =
+          some s' := hs
       rcases getElem?_concat_cases hs' with h2 | ⟨_, h2⟩
       · have := (List.getElem?_eq_some_iff.mp h2).1
         rw [Spec.react_length, hlen] at this; omega
-      · exact h2
+      · rw [h2, h1]
   | data => exact Or.inl (old hr)
   | nack => exact Or.inl (old hr)
   | tick => exact Or.inl (old hr)
+  | reach => exact Or.inl (old hr)
   | cancel => exact Or.inl (old hr)
   | shutdown => exact Or.inl (old hr)
+
+/-- the requests of a history stay what they are when the history goes on -/
+theorem Spec.reqs_stable (fe : FrontEnd) (pre post : List Ev) {i : Nat} {r : Req}
+    (h : (Spec.run fe pre).reqs[i]? = some r) : (Spec.run fe (pre ++ post)).reqs[i]? = some r := by
+  induction post using list_rev_induction with
+  | h0 => simpa using h
+  | hs l a ih =>
+    rw [← List.append_assoc, Spec.run_snoc]
+    have hlt : i < (Spec.run fe (pre ++ l)).sts.length := by
+      rw [Spec.run_len]; exact (List.getElem?_eq_some_iff.mp ih).1
+    exact (Spec.step_old fe _ a ih (s := (Spec.run fe (pre ++ l)).sts[i]) (by simp [hlt])).1
 
 /-! ### justification is stable under extending the history -/
 
@@ -111,182 +128,396 @@ theorem TakenAt.snoc {fe : FrontEnd} {evs : List Ev} {i : Nat} {r : Req} {d a : 
   obtain ⟨pre, post, nm, dg, h1, h2⟩ := h
   exact ⟨pre, post ++ [ev], nm, dg, by rw [h1]; simp, h2⟩
 
-theorem specReact_done (fe : FrontEnd) (now i : Nat) (r : Req) (o : Outcome) (t : Nat) (ev : Ev) :
-    specReact fe now i r (.done o t) ev = .done o t := by
-  cases ev <;> simp [specReact, specFire, specCancel]
-
-/-- a finished request stays justified -/
-theorem Justified.done_snoc {fe : FrontEnd} {evs : List Ev} {i : Nat} {r : Req} {o : Outcome} {t : Nat} (ev : Ev)
-    (h : Justified fe evs i r (.done o t)) : Justified fe (evs ++ [ev]) i r (.done o t) := by
+theorem Resolved.snoc {fe : FrontEnd} {evs : List Ev} {i : Nat} {r : Req} {o : Outcome} {t0 : Nat} (ev : Ev)
+    (h : Resolved fe evs i r o t0) : Resolved fe (evs ++ [ev]) i r o t0 := by
   cases o with
-  | timeout =>
-    simp only [Justified] at h ⊢
-    rw [Spec.run_snoc]
-    exact ⟨h.1, Nat.le_trans h.2 (Spec.clock_le_step _ _ _)⟩
+  | timeout => simp only [Resolved] at h
+  | noResponse => simp only [Resolved] at h
   | nack rsn =>
-    simp only [Justified] at h ⊢
+    simp only [Resolved] at h ⊢
     obtain ⟨pre, post, nm, dg, h1, h2⟩ := h
     exact ⟨pre, post ++ [ev], nm, dg, by rw [h1]; simp, h2⟩
   | cancelled =>
-    simp only [Justified] at h ⊢
+    simp only [Resolved] at h ⊢
     obtain ⟨pre, post, h1, h2⟩ := h
     refine ⟨pre, post ++ [ev], ?_, h2⟩
     rcases h1 with h1 | h1
     · left; rw [h1]; simp
     · right; rw [h1]; simp
   | data d =>
-    simp only [Justified] at h ⊢
+    simp only [Resolved] at h ⊢
     obtain ⟨d', a, h1, h2⟩ := h
     exact ⟨d', a, h1.snoc ev, h2⟩
   | valFail d v =>
-    simp only [Justified] at h ⊢
+    simp only [Resolved] at h ⊢
     obtain ⟨d', a, h1, h2⟩ := h
     exact ⟨d', a, h1.snoc ev, h2⟩
   | validatorError d =>
-    simp only [Justified] at h ⊢
+    simp only [Resolved] at h ⊢
     obtain ⟨d', a, h1, h2⟩ := h
     exact ⟨d', a, h1.snoc ev, h2⟩
+
+theorem specReact_done (fe : FrontEnd) (now i : Nat) (r : Req) (o : Outcome) (t : Nat) (ev : Ev) :
+    specReact fe now i r (.done o t) ev = .done o t := by
+  cases ev <;> simp [specReact, specFire, specCancel, specReach]
+
+/-- a resolved future: what the caller gets, and when -/
+theorem JustifiedAt.of_resolved {c : Nat} {fe : FrontEnd} {evs : List Ev} {i : Nat} {r : Req} {o : Outcome} {t0 : Nat}
+    (h : Resolved fe evs i r o t0) : JustifiedAt c fe evs i r (.done o (max t0 r.awaitAt)) := by
+  cases o with
+  | timeout => simp only [Resolved] at h
+  | noResponse => simp only [Resolved] at h
+  | nack rsn => exact ⟨t0, h, rfl⟩
+  | cancelled => exact ⟨t0, h, rfl⟩
+  | data d => exact ⟨t0, h, rfl⟩
+  | valFail d v => exact ⟨t0, h, rfl⟩
+  | validatorError d => exact ⟨t0, h, rfl⟩
+
+/-- the history goes on, the clock is where it was -/
+theorem JustifiedAt.snoc {c : Nat} {fe : FrontEnd} {evs : List Ev} {i : Nat} {r : Req} {s : IState} (ev : Ev)
+    (h : JustifiedAt c fe evs i r s) : JustifiedAt c fe (evs ++ [ev]) i r s := by
+  cases s with
+  | waiting => exact h
+  | validating d fin =>
+    obtain ⟨a, hT, hfin⟩ := h
+    exact ⟨a, hT.snoc ev, hfin⟩
+  | held o =>
+    obtain ⟨h1, t0, h2, h3⟩ := h
+    exact ⟨h1, t0, h2.snoc ev, h3⟩
+  | done o t =>
+    cases o with
+    | timeout => exact h
+    | noResponse =>
+      simp only [JustifiedAt] at h ⊢
+      obtain ⟨hfe, pre, post, nm, imp, cbp, life, v, lat, defer, h1, h2⟩ := h
+      exact ⟨hfe, pre, post ++ [ev], nm, imp, cbp, life, v, lat, defer, by rw [h1]; simp, h2⟩
+    | nack rsn =>
+      simp only [JustifiedAt] at h ⊢
+      obtain ⟨t0, h1, h2⟩ := h; exact ⟨t0, h1.snoc ev, h2⟩
+    | cancelled =>
+      simp only [JustifiedAt] at h ⊢
+      obtain ⟨t0, h1, h2⟩ := h; exact ⟨t0, h1.snoc ev, h2⟩
+    | data d =>
+      simp only [JustifiedAt] at h ⊢
+      obtain ⟨t0, h1, h2⟩ := h; exact ⟨t0, h1.snoc ev, h2⟩
+    | valFail d v =>
+      simp only [JustifiedAt] at h ⊢
+      obtain ⟨t0, h1, h2⟩ := h; exact ⟨t0, h1.snoc ev, h2⟩
+    | validatorError d =>
+      simp only [JustifiedAt] at h ⊢
+      obtain ⟨t0, h1, h2⟩ := h; exact ⟨t0, h1.snoc ev, h2⟩
+
+/-- a finished request stays justified whatever the clock reads later -/
+theorem JustifiedAt.done_mono {c c' : Nat} {fe : FrontEnd} {evs : List Ev} {i : Nat} {r : Req} {o : Outcome} {t : Nat}
+    (hc : c ≤ c') (h : JustifiedAt c fe evs i r (.done o t)) : JustifiedAt c' fe evs i r (.done o t) := by
+  cases o with
+  | timeout => simp only [JustifiedAt] at h ⊢; exact ⟨h.1, Nat.le_trans h.2 hc⟩
+  | noResponse => exact h
+  | nack rsn => exact h
+  | cancelled => exact h
+  | data d => exact h
+  | valFail d v => exact h
+  | validatorError d => exact h
 
 theorem validatorOutcome_form {fe : FrontEnd} {v : Verdict} {d : Nat} {o : Outcome}
     (h : validatorOutcome fe v d = some o) : o = .data d ∨ (∃ v', o = .valFail d v') ∨ o = .validatorError d := by
   cases fe <;> cases v <;> simp [validatorOutcome] at h <;> subst h <;> simp
 
 /-- an outcome produced by the validator is justified by the Data that was taken -/
-theorem Justified.of_validator {fe : FrontEnd} {evs : List Ev} {i : Nat} {r : Req} {d a t : Nat} {o : Outcome}
-    (hv : validatorOutcome fe r.verdict d = some o) (hT : TakenAt fe evs i r d a) (ht : t = a + r.lat)
-    (hd : fe = .v2 → t < r.deadline) : Justified fe evs i r (.done o t) := by
+theorem Resolved.of_validator {fe : FrontEnd} {evs : List Ev} {i : Nat} {r : Req} {d a t0 : Nat} {o : Outcome}
+    (hv : validatorOutcome fe r.verdict d = some o) (hT : TakenAt fe evs i r d a) (ht : t0 = vstart fe a r + r.lat)
+    (hd : fe = .v2 → t0 < r.deadline ∨ r.lat = 0) : Resolved fe evs i r o t0 := by
   rcases validatorOutcome_form hv with h | ⟨v', h⟩ | h <;> subst h <;>
     exact ⟨d, a, hT, ht, hv, hd⟩
+
+/-- the future is resolved at the instant the clock reads -/
+theorem JustifiedAt.of_resolve {c : Nat} {fe : FrontEnd} {evs : List Ev} {i : Nat} {r : Req} {o : Outcome}
+    (h : Resolved fe evs i r o c) : JustifiedAt c fe evs i r (resolve c r o) := by
+  unfold resolve
+  by_cases ha : r.awaitAt ≤ c
+  · rw [if_pos ha]
+    have := JustifiedAt.of_resolved (c := c) h
+    rwa [Nat.max_eq_left ha] at this
+  · rw [if_neg ha]
+    exact ⟨by omega, c, h, by omega⟩
+
+theorem vstart_ge (fe : FrontEnd) (now : Nat) (r : Req) : now ≤ vstart fe now r := by
+  unfold vstart; cases fe <;> simp <;> omega
+
+theorem vstart_await (now : Nat) (r : Req) : r.awaitAt ≤ vstart .v1 now r := by
+  unfold vstart; simp; omega
+
+/-- the timers due up to `b` fire while the clock moves from `c` to `c'` (`b ≤ c' ≤ b + 1`: `tick` fires what is due
+    at `c'` too, `reach` does not) -/
+theorem JustifiedAt.fire {c c' b : Nat} {fe : FrontEnd} {evs : List Ev} {i : Nat} {r : Req} {s : IState}
+    (hc : c ≤ c') (hb : b ≤ c') (hb' : c' ≤ b + 1) (h : JustifiedAt c fe evs i r s) :
+    JustifiedAt c' fe evs i r (specFire fe b r s) := by
+  cases s with
+  | done o t => simp only [specFire]; exact h.done_mono hc
+  | waiting =>
+    simp only [specFire]
+    by_cases hd : r.deadline ≤ b
+    · rw [if_pos hd]; exact ⟨rfl, by omega⟩
+    · rw [if_neg hd]; show c' ≤ r.deadline; omega
+  | held o =>
+    obtain ⟨h1, t0, h2, h3⟩ := h
+    simp only [specFire]
+    by_cases ha : r.awaitAt ≤ b
+    · rw [if_pos ha]
+      have := JustifiedAt.of_resolved (c := c') h2
+      rwa [Nat.max_eq_right h3] at this
+    · rw [if_neg ha]; exact ⟨by omega, t0, h2, h3⟩
+  | validating d fin =>
+    obtain ⟨a, hT, hfin⟩ := h
+    have keep : JustifiedAt c' fe evs i r (.validating d fin) := ⟨a, hT, hfin⟩
+    have htimeout : r.deadline ≤ b → JustifiedAt c' fe evs i r (.done .timeout r.deadline) :=
+      fun hd => ⟨rfl, by omega⟩
+    cases fe with
+    | v1 =>
+      simp only [specFire]
+      by_cases hf : fin ≤ b
+      · rw [if_pos hf]
+        cases hv : validatorOutcome .v1 r.verdict d with
+        | none => exact keep
+        | some o =>
+          have hR := Resolved.of_validator hv hT hfin (fun h => by cases h)
+          have := JustifiedAt.of_resolved (c := c') hR
+          have hge : r.awaitAt ≤ fin := by have := vstart_await a r; omega
+          rwa [Nat.max_eq_left hge] at this
+      · rw [if_neg hf]; exact keep
+    | v2 =>
+      simp only [specFire]
+      cases hv : validatorOutcome .v2 r.verdict d with
+      | none =>
+        simp only
+        by_cases hd : r.deadline ≤ b
+        · rw [if_pos hd]; exact htimeout hd
+        · rw [if_neg hd]; exact keep
+      | some o =>
+        simp only
+        by_cases hf : fin ≤ b ∧ fin < r.deadline
+        · rw [if_pos hf]
+          have hR := Resolved.of_validator hv hT hfin (fun _ => Or.inl hf.2)
+          by_cases ha : r.awaitAt ≤ b
+          · rw [if_pos ha]; exact JustifiedAt.of_resolved hR
+          · rw [if_neg ha]; exact ⟨by omega, fin, hR, by omega⟩
+        · rw [if_neg hf]
+          by_cases hd : r.deadline ≤ b
+          · rw [if_pos hd]; exact htimeout hd
+          · rw [if_neg hd]; exact keep
 
 theorem justified_step (fe : FrontEnd) (evs : List Ev) (ev : Ev) {i : Nat} {r : Req} {s : IState}
     (hs : (Spec.run fe evs).sts[i]? = some s) (hJ : Justified fe evs i r s) :
     Justified fe (evs ++ [ev]) i r (specReact fe (Spec.run fe evs).clock i r s ev) := by
   have hclk := Spec.step_clock fe (Spec.run fe evs) ev
   rw [← Spec.run_snoc] at hclk
-  have here : ∀ (d : Nat) (nm : Name) (dg : Nat), ev = .data nm dg d → s = .waiting → Matches r nm dg →
-      TakenAt fe (evs ++ [ev]) i r d (Spec.run fe evs).clock := by
-    intro d nm dg he hw hM
-    subst he; subst hw
-    exact ⟨evs, [], nm, dg, rfl, hs, hM, rfl, hJ⟩
-  cases s with
-  | done o t => rw [specReact_done]; exact hJ.done_snoc ev
-  | waiting =>
-    have hJ' : (Spec.run fe evs).clock < r.deadline := hJ
-    cases ev with
-    | express nm imp cbp life v lat =>
-      simp only [specReact, Justified]; rw [hclk]; exact hJ'
-    | data nm dg d =>
-      simp only [specReact]
-      by_cases hM : Matches r nm dg
-      · rw [if_pos ⟨trivial, hM⟩]
-        have hT := here d nm dg rfl rfl hM
-        unfold taken
-        cases hm : (if r.lat = 0 then validatorOutcome fe r.verdict d else none) with
-        | none => exact ⟨_, hT, rfl⟩
-        | some o =>
-          have hlat : r.lat = 0 := by
-            apply Classical.byContradiction; intro hc; rw [if_neg hc] at hm; cases hm
-          rw [if_pos hlat] at hm
-          exact Justified.of_validator hm hT (by rw [hlat]; rfl) (fun _ => hJ')
-      · rw [if_neg (fun hc => hM hc.2)]
-        simp only [Justified]; rw [hclk]; exact hJ'
-    | nack nm dg rsn =>
-      simp only [specReact]
-      by_cases hN : Named r nm dg
-      · rw [if_pos ⟨trivial, hN⟩]
-        exact ⟨evs, [], nm, dg, rfl, hs, hN, rfl⟩
-      · rw [if_neg (fun hc => hN hc.2)]
-        simp only [Justified]; rw [hclk]; exact hJ'
-    | cancel j =>
-      simp only [specReact]
-      by_cases hj : j = i
-      · rw [if_pos hj, hj]
-        exact ⟨evs, [], Or.inl rfl, rfl⟩
-      · rw [if_neg hj]
-        simp only [Justified]; rw [hclk]; exact hJ'
-    | shutdown =>
-      simp only [specReact, if_true]
-      exact ⟨evs, [], Or.inr rfl, rfl⟩
-    | tick t =>
-      have hclk' : (Spec.run fe (evs ++ [Ev.tick t])).clock = max (Spec.run fe evs).clock t := hclk
-      simp only [specReact, specFire]
-      by_cases hd : r.deadline ≤ max (Spec.run fe evs).clock t
-      · rw [if_pos hd]
-        exact ⟨rfl, by rw [hclk']; exact hd⟩
-      · rw [if_neg hd]
-        simp only [Justified]; rw [hclk']; omega
-  | validating d fin =>
-    obtain ⟨a, hT, hfin⟩ := hJ
-    have keep : Justified fe (evs ++ [ev]) i r (.validating d fin) := ⟨a, hT.snoc ev, hfin⟩
-    cases ev with
-    | express nm imp cbp life v lat => exact keep
-    | data nm dg d' =>
-      simp only [specReact]
-      rw [if_neg (fun hc => by cases hc.1)]; exact keep
-    | nack nm dg rsn =>
-      simp only [specReact]
-      rw [if_neg (fun hc => by cases hc.1)]; exact keep
-    | shutdown =>
-      simp only [specReact]
-      rw [if_neg (fun hc => by cases hc)]; exact keep
-    | cancel j =>
-      simp only [specReact]
-      by_cases hj : j = i
-      · rw [if_pos hj, hj]
-        exact ⟨evs, [], Or.inl rfl, rfl⟩
-      · rw [if_neg hj]; exact keep
-    | tick t =>
-      have hclk' : (Spec.run fe (evs ++ [Ev.tick t])).clock = max (Spec.run fe evs).clock t := hclk
-      simp only [specReact]
-      cases fe with
-      | v1 =>
-        simp only [specFire]
-        by_cases hf : fin ≤ max (Spec.run .v1 evs).clock t
-        · rw [if_pos hf]
-          cases hv : validatorOutcome .v1 r.verdict d with
-          | none => exact keep
-          | some o => exact Justified.of_validator hv (hT.snoc _) hfin (fun h => by cases h)
-        · rw [if_neg hf]; exact keep
-      | v2 =>
-        simp only [specFire]
-        cases hv : validatorOutcome .v2 r.verdict d with
-        | none =>
-          simp only
-          by_cases hd : r.deadline ≤ max (Spec.run .v2 evs).clock t
-          · rw [if_pos hd]; exact ⟨rfl, by rw [hclk']; exact hd⟩
-          · rw [if_neg hd]; exact keep
-        | some o =>
-          simp only
-          by_cases hf : fin ≤ max (Spec.run .v2 evs).clock t ∧ fin < r.deadline
-          · rw [if_pos hf]
-            exact Justified.of_validator hv (hT.snoc _) hfin (fun _ => hf.2)
-          · rw [if_neg hf]
-            by_cases hd : r.deadline ≤ max (Spec.run .v2 evs).clock t
-            · rw [if_pos hd]; exact ⟨rfl, by rw [hclk']; exact hd⟩
-            · rw [if_neg hd]; exact keep
+  unfold Justified at hJ ⊢
+  generalize hnow : (Spec.run fe evs).clock = now at hJ hclk ⊢
+  -- the event does not move the clock and leaves the state alone
+  have keep : clockStep now ev = now → JustifiedAt (Spec.run fe (evs ++ [ev])).clock fe (evs ++ [ev]) i r s := by
+    intro h; rw [hclk, h]; exact hJ.snoc ev
+  cases ev with
+  | express nm imp cbp life v lat defer nr => exact keep rfl
+  | data nm dg d =>
+    simp only [specReact]
+    by_cases hc : s = .waiting ∧ Matches r nm dg
+    · rw [if_pos hc]
+      obtain ⟨hw, hM⟩ := hc
+      subst hw
+      have hdl : now ≤ r.deadline := hJ
+      have hT : TakenAt fe (evs ++ [Ev.data nm dg d]) i r d now := ⟨evs, [], nm, dg, rfl, hs, hM, hnow, hdl⟩
+      rw [hclk]; simp only [clockStep]
+      unfold taken
+      cases hm : (if r.lat = 0 ∧ vstart fe now r ≤ now then validatorOutcome fe r.verdict d else none) with
+      | none => exact ⟨now, hT, rfl⟩
+      | some o =>
+        have hcond : r.lat = 0 ∧ vstart fe now r ≤ now := by
+          apply Classical.byContradiction; intro hc; rw [if_neg hc] at hm; cases hm
+        rw [if_pos hcond] at hm
+        have hvs : vstart fe now r = now := Nat.le_antisymm hcond.2 (vstart_ge fe now r)
+        exact JustifiedAt.of_resolve (Resolved.of_validator hm hT (by rw [hvs, hcond.1]; rfl) (fun _ => Or.inr hcond.1))
+    · rw [if_neg hc]; exact keep rfl
+  | nack nm dg rsn =>
+    simp only [specReact]
+    by_cases hc : s = .waiting ∧ Named r nm dg
+    · rw [if_pos hc]
+      obtain ⟨hw, hN⟩ := hc
+      subst hw
+      rw [hclk]; simp only [clockStep]
+      exact JustifiedAt.of_resolve (o := .nack rsn) ⟨evs, [], nm, dg, rfl, hs, hN, hnow⟩
+    · rw [if_neg hc]; exact keep rfl
+  | shutdown =>
+    simp only [specReact]
+    by_cases hw : s = .waiting
+    · rw [if_pos hw]
+      rw [hclk]; simp only [clockStep]
+      exact JustifiedAt.of_resolve (o := .cancelled) ⟨evs, [], Or.inr rfl, hnow⟩
+    · rw [if_neg hw]; exact keep rfl
+  | cancel j =>
+    simp only [specReact]
+    by_cases hj : j = i
+    · subst hj
+      rw [if_pos rfl]
+      unfold specCancel
+      by_cases hu : now < r.awaitAt
+      · rw [if_pos hu]; exact keep rfl
+      · rw [if_neg hu]
+        have hcan : JustifiedAt (Spec.run fe (evs ++ [Ev.cancel j])).clock fe (evs ++ [Ev.cancel j]) j r
+            (.done .cancelled now) := by
+          refine ⟨now, ⟨evs, [], Or.inl rfl, hnow⟩, ?_⟩
+          omega
+        cases s with
+        | done o t => exact keep rfl
+        | held o => exact keep rfl
+        | waiting => exact hcan
+        | validating d fin => exact hcan
+    · rw [if_neg hj]; exact keep rfl
+  | tick t =>
+    simp only [specReact]
+    rw [hclk]; simp only [clockStep]
+    exact JustifiedAt.fire (by omega) (Nat.le_refl _) (by omega) (hJ.snoc _)
+  | reach t =>
+    simp only [specReact, specReach]
+    rw [hclk]; simp only [clockStep]
+    by_cases h0 : max now t = 0
+    · rw [if_pos h0]
+      have : now = max now t := by omega
+      rw [← this]; exact hJ.snoc _
+    · rw [if_neg h0]
+      exact JustifiedAt.fire (by omega) (by omega) (by omega) (hJ.snoc _)
 
-/-- **every state of every request is justified by the history** -/
-theorem spec_justified (fe : FrontEnd) (evs : List Ev) (hwf : ∀ ev ∈ evs, WFEv ev) :
+theorem expiry_ge (fe : FrontEnd) (now life defer : Nat) : now + defer ≤ expiry fe now life defer := by
+  unfold expiry; cases fe
+  · simp only; omega
+  · simp only; split <;> omega
+
+theorem silent_iff {fe : FrontEnd} {nr : Bool} : silent fe nr = true ↔ fe = .v2 ∧ nr = true := by
+  cases fe <;> simp [silent]
+
+/-- **every state of every request is justified by the history** (no hypothesis on the history: lifetime 0,
+    late awaits, `no_response` and same-turn ties included) -/
+theorem spec_justified (fe : FrontEnd) (evs : List Ev) :
     ∀ (i : Nat) (r : Req) (s : IState), (Spec.run fe evs).reqs[i]? = some r → (Spec.run fe evs).sts[i]? = some s →
       Justified fe evs i r s := by
   induction evs using list_rev_induction with
   | h0 => intro i r s hr; simp [Spec.run] at hr
   | hs l ev ih =>
     intro i r s' hr hs'
-    have ih' := ih (fun e he => hwf e (List.mem_append_left _ he))
     rw [Spec.run_snoc] at hr hs'
     rcases Spec.step_cases fe (Spec.run fe l) (Spec.run_len fe l) ev hr hs' with
-      ⟨s, h1, h2, h3⟩ | ⟨nm, imp, cbp, life, v, lat, h1, h2, h3, h4⟩
+      ⟨s, h1, h2, h3⟩ | ⟨nm, imp, cbp, life, v, lat, defer, nr, h1, h2, h3, h4⟩
     · rw [h3]
-      exact justified_step fe l ev h2 (ih' i r s h1 h2)
+      exact justified_step fe l ev h2 (ih i r s h1 h2)
     · subst h4
-      have hlife : 0 < life := by
-        have := hwf ev (List.mem_append_right _ (List.mem_singleton.mpr rfl))
-        rw [h1] at this; exact this
-      simp only [Justified]
-      rw [Spec.run_snoc, Spec.step_clock, h1, h3]
-      simp only
-      omega
+      unfold Justified
+      have hclk : (Spec.run fe (l ++ [ev])).clock = (Spec.run fe l).clock := by
+        rw [Spec.run_snoc, Spec.step_clock, h1]; rfl
+      rw [hclk]
+      apply JustifiedAt.fire (c := (Spec.run fe l).clock) (Nat.le_refl _) (Nat.le_refl _) (by omega)
+      unfold initSt
+      cases hsil : silent fe nr with
+      | true =>
+        obtain ⟨hfe, hnr⟩ := silent_iff.mp hsil
+        simp only [if_true]
+        subst hnr
+        exact ⟨hfe, l, [], nm, imp, cbp, life, v, lat, defer, by rw [h1], h2.symm, rfl⟩
+      | false =>
+        simp only [Bool.false_eq_true, if_false]
+        show (Spec.run fe l).clock ≤ r.deadline
+        rw [h3]
+        have := expiry_ge fe (Spec.run fe l).clock life defer
+        simp only [mkReq]; omega
+
+/-! ### histories without ties: everything happens strictly before the deadline -/
+
+theorem specReact_waiting_inv {fe : FrontEnd} {now i : Nat} {r : Req} {s : IState} {ev : Ev}
+    (h : specReact fe now i r s ev = .waiting) : s = .waiting := by
+  apply Classical.byContradiction
+  intro hne
+  cases ev with
+  | express => exact hne h
+  | data nm dg d =>
+    simp only [specReact] at h
+    rw [if_neg (fun hc => hne hc.1)] at h; exact hne h
+  | nack nm dg rsn =>
+    simp only [specReact] at h
+    rw [if_neg (fun hc => hne hc.1)] at h; exact hne h
+  | shutdown =>
+    simp only [specReact] at h
+    rw [if_neg hne] at h; exact hne h
+  | cancel j =>
+    simp only [specReact] at h
+    by_cases hj : j = i
+    · rw [if_pos hj] at h
+      unfold specCancel at h
+      split at h
+      · exact hne h
+      · cases s <;> simp_all
+    · rw [if_neg hj] at h; exact hne h
+  | tick t => exact specFire_ne_waiting_of hne h
+  | reach t =>
+    simp only [specReact, specReach] at h
+    split at h
+    · exact hne h
+    · exact specFire_ne_waiting_of hne h
+
+theorem NoTie.snoc_inv {evs : List Ev} {ev : Ev} (h : NoTie (evs ++ [ev])) : NoTie evs ∧ ∀ t, ev ≠ .reach t :=
+  ⟨fun e he => h e (List.mem_append_left _ he), h ev (List.mem_append_right _ (List.mem_singleton.mpr rfl))⟩
+
+theorem NoTie.prefix {pre post : List Ev} (h : NoTie (pre ++ post)) : NoTie pre :=
+  fun e he => h e (List.mem_append_left _ he)
+
+/-- in a history without ties a waiting request has not reached its deadline -/
+theorem waiting_before_deadline (fe : FrontEnd) (evs : List Ev) (hn : NoTie evs) :
+    ∀ (i : Nat) (r : Req), (Spec.run fe evs).reqs[i]? = some r → (Spec.run fe evs).sts[i]? = some .waiting →
+      (Spec.run fe evs).clock < r.deadline := by
+  induction evs using list_rev_induction with
+  | h0 => intro i r hr; simp [Spec.run] at hr
+  | hs l ev ih =>
+    intro i r hr hs'
+    obtain ⟨hn1, hn2⟩ := hn.snoc_inv
+    have hclk : (Spec.run fe (l ++ [ev])).clock = clockStep (Spec.run fe l).clock ev := by
+      rw [Spec.run_snoc, Spec.step_clock]
+    rw [Spec.run_snoc] at hr hs'
+    rcases Spec.step_cases fe (Spec.run fe l) (Spec.run_len fe l) ev hr hs' with
+      ⟨s, h1, h2, h3⟩ | ⟨nm, imp, cbp, life, v, lat, defer, nr, h1, h2, h3, h4⟩
+    · have hw : s = .waiting := specReact_waiting_inv h3.symm
+      subst hw
+      have := ih hn1 i r h1 h2
+      rw [hclk]
+      cases ev with
+      | tick t =>
+        simp only [specReact, specFire] at h3
+        simp only [clockStep]
+        by_cases hd : r.deadline ≤ max (Spec.run fe l).clock t
+        · rw [if_pos hd] at h3; cases h3
+        · omega
+      | reach t => exact absurd rfl (hn2 t)
+      | _ => exact this
+    · rw [hclk, h1]; simp only [clockStep]
+      unfold initSt at h4
+      cases hsil : silent fe nr with
+      | true => rw [hsil] at h4; simp [specFire] at h4
+      | false =>
+        rw [hsil] at h4
+        simp only [Bool.false_eq_true, if_false, specFire] at h4
+        by_cases hd : r.deadline ≤ (Spec.run fe l).clock
+        · rw [if_pos hd] at h4; cases h4
+        · omega
+
+/-- in a history without ties a Data is taken strictly before the deadline -/
+theorem taken_before_deadline (fe : FrontEnd) (evs : List Ev) (hn : NoTie evs) {i : Nat} {r : Req} {d a : Nat}
+    (hr : (Spec.run fe evs).reqs[i]? = some r) (hT : TakenAt fe evs i r d a) : a < r.deadline := by
+  obtain ⟨pre, post, nm, dg, h1, h2, _, h4, _⟩ := hT
+  subst h1
+  have hlt : i < (Spec.run fe pre).reqs.length := by
+    rw [← Spec.run_len]; exact (List.getElem?_eq_some_iff.mp h2).1
+  have hr' : (Spec.run fe pre).reqs[i]? = some (Spec.run fe pre).reqs[i] := by simp [hlt]
+  have := Spec.reqs_stable fe pre (Ev.data nm dg d :: post) hr'
+  rw [hr] at this
+  rw [← Option.some.inj this] at hr'
+  rw [← h4]
+  exact waiting_before_deadline fe pre hn.prefix i r hr' h2
 
 /-! ### one Interest along a history -/
 
@@ -302,8 +533,8 @@ theorem step_old {σ : State} (h : Inv σ) (fe : FrontEnd) (ev : Ev) {i : Nat} {
     rw [c]; cases ev <;> rfl
   | true =>
     cases ev with
-    | express nm imp cbp life v lat =>
-      obtain ⟨_, _, c, e, nid, f⟩ := step_eff_express h fe nm imp cbp life v lat
+    | express nm imp cbp life v lat defer nr =>
+      obtain ⟨_, _, c, e, nid, f⟩ := step_eff_express h fe nm imp cbp life v lat defer nr
       exact ⟨by rw [f]; exact getElem?_concat_old hi, by rw [e]; exact getElem?_concat_old hs, c⟩
     | _ => simp [isExpress] at hx
 
